@@ -64,6 +64,13 @@ class Lex:
             text = "N" * (t.length + 1 + rng.randint(0, 7))
             return text, text
         cap = t.length if t.length is not None else 40
+        if rng.random() < 0.05:
+            # blanks spelled as entities survive the trimming of element data: the value is (or begins / ends with) real blanks
+            text = rng.choice(["&nbsp;", "&nbsp;&nbsp;", "&nbsp;x&nbsp;", "&nbsp;x", "x&nbsp;"])
+            val = R.decode_chardata(text)
+            if len(val) <= cap:
+                self.ctx.count("strings_of_escaped_blanks")
+                return text, val
         n = rng.randint(1, max(1, min(cap, 12)))
         chars = [rng.choice("abcXYZ019 .-_/&<>'\"éü€") for _ in range(n)]
         out = []
